@@ -881,6 +881,11 @@ impl<'a, 'b> Gen<'a, 'b> {
                 return s;
             }
         }
+        if self.p.self_update_bias > 0 && self.in_loop > 0 && self.t.chance(40) {
+            if let Some(s) = self.copy_through() {
+                return s;
+            }
+        }
         match roll {
             0 | 1 if decl_ok && self.p.template && self.p.signals && self.p.nested_signal_decls && self.t.chance(90) => {
                 self.signal_decl()
@@ -1010,10 +1015,19 @@ impl<'a, 'b> Gen<'a, 'b> {
         self.saw_data = saved || d;
         self.taint(a.key, d);
         let (first, second) = if self.t.chance(200) { ((i, rhs1), (j, rhs2)) } else { ((j, rhs2), (i, rhs1)) };
-        for (k, rhs) in [first, second] {
+        // the second write may sit in another basic block (inside a branch)
+        let split = self.t.chance(100);
+        for (n, (k, rhs)) in [first, second].into_iter().enumerate() {
             let ix = self.small_literal(k as u64);
             let lhs = Expr::Var { id: self.ids.next(), name: a.name.clone(), access: vec![Access::Index(ix)] };
-            stmts.push(Stmt::Assign { id: self.ids.next(), lhs, op: AssignOp::Var, rhs, reversed: false });
+            let st = Stmt::Assign { id: self.ids.next(), lhs, op: AssignOp::Var, rhs, reversed: false };
+            if n == 1 && split {
+                let cond = self.cond();
+                let then = Stmt::Block { id: self.ids.next(), stmts: vec![st] };
+                stmts.push(Stmt::If { id: self.ids.next(), cond, then: Box::new(then), els: None });
+            } else {
+                stmts.push(st);
+            }
         }
         // a read of one of the two elements into a scalar local, if there is one
         let scalars: Vec<VarInfo> =
@@ -1039,6 +1053,37 @@ impl<'a, 'b> Gen<'a, 'b> {
             self.assigned.insert(x.key);
         }
         Some(Stmt::Block { id: self.ids.next(), stmts })
+    }
+
+    /// `{ var nx = x op e; x = nx; }`: a loop-carried value that goes through a plain copy.
+    fn copy_through(&mut self) -> Option<Stmt> {
+        let scalars: Vec<VarInfo> =
+            self.local_targets().into_iter().filter(|v| v.ty == Ty::Var && self.assigned.contains(&v.key)).collect();
+        if scalars.is_empty() {
+            return None;
+        }
+        let x = scalars[self.t.below(scalars.len())].clone();
+        let nx = self.fresh_name("nx");
+        let op = self.infix_op();
+        let (e, d) = self.expr_tracked(1);
+        let me = Expr::Var { id: self.ids.next(), name: x.name.clone(), access: vec![] };
+        let rhs = Expr::Infix { id: self.ids.next(), op, l: Box::new(me), r: Box::new(e) };
+        let decl = Stmt::Decl {
+            id: self.ids.next(),
+            kind: DeclKind::Var,
+            syms: vec![DeclSym { id: self.ids.next(), sub_id: self.ids.next(), name: nx.clone(), dims: vec![], init: Some(rhs) }],
+            init_op: AssignOp::Var,
+        };
+        self.taint(x.key, d);
+        let lhs = Expr::Var { id: self.ids.next(), name: x.name.clone(), access: vec![] };
+        let copy = Stmt::Assign {
+            id: self.ids.next(),
+            lhs,
+            op: AssignOp::Var,
+            rhs: Expr::Var { id: self.ids.next(), name: nx, access: vec![] },
+            reversed: false,
+        };
+        Some(Stmt::Block { id: self.ids.next(), stmts: vec![decl, copy] })
     }
 
     fn fallback_simple(&mut self) -> Stmt {
@@ -1110,8 +1155,11 @@ impl<'a, 'b> Gen<'a, 'b> {
         let block_id = self.ids.next();
         let bound = 1 + self.t.below(3) as u64;
         let name = self.fresh_name("w");
+        // where the counter is incremented: at the end of the body, at its start or in the middle
+        // (then the body also sees the value `bound`, so the counter is protected with bound + 1)
+        let inc_pos = if self.p.self_update_bias > 0 { self.t.below(3) } else { 0 };
         self.scopes.push(vec![]);
-        let key = self.declare(&name, Ty::Var, Some(bound), false);
+        let key = self.declare(&name, Ty::Var, Some(if inc_pos == 0 { bound } else { bound + 1 }), false);
         self.assigned.insert(key);
         let zero = self.small_literal(0);
         let decl = Stmt::Decl {
@@ -1137,13 +1185,21 @@ impl<'a, 'b> Gen<'a, 'b> {
         self.in_loop += 1;
         self.scopes.push(vec![]);
         let mut stmts = Vec::new();
-        for _ in 0..self.t.below(3) {
-            if self.budget == 0 {
-                break;
+        let nbody = self.t.below(3) + usize::from(inc_pos != 0);
+        let inc_at = match inc_pos {
+            0 => nbody,
+            1 => 0,
+            _ => nbody / 2,
+        };
+        for k in 0..=nbody {
+            if k == inc_at {
+                stmts.push(Stmt::IncDec { id: self.ids.next(), name: name.clone(), access: vec![], inc: true });
+            }
+            if k == nbody || self.budget == 0 {
+                continue;
             }
             stmts.push(self.stmt(depth - 1, true));
         }
-        stmts.push(Stmt::IncDec { id: self.ids.next(), name: name.clone(), access: vec![], inc: true });
         self.scopes.pop();
         self.in_loop -= 1;
         self.assigned = before;
